@@ -596,7 +596,7 @@ func execVest(x *Exec, toks []string) string {
 		var amt sdk.Coins
 		if o.ok {
 			a, _ := sdk.AccAddressFromBech32(o.s)
-			amt = app.BankKeeper.LockedCoins(x.ctx, a)
+			catch(func() error { amt = app.BankKeeper.LockedCoins(x.ctx, a); return nil })
 		}
 		return splitMonitored(x, f, toks[0], o, t, amt, msg.ValidateBasic, func(ctx sdk.Context) (sdk.Int, error) {
 			_, err := ms.MoveAvailableVesting(sdk.WrapSDKContext(ctx), msg)
@@ -614,7 +614,8 @@ func execVest(x *Exec, toks []string) string {
 		var amt sdk.Coins
 		if o.ok && msg.ValidateBasic() == nil {
 			a, _ := sdk.AccAddressFromBech32(o.s)
-			lk := app.BankKeeper.LockedCoins(x.ctx, a)
+			var lk sdk.Coins
+			catch(func() error { lk = app.BankKeeper.LockedCoins(x.ctx, a); return nil })
 			for _, d := range denoms {
 				// the monitor's own expectation only uses well-formed denoms: a malformed one that slipped
 				// through ValidateBasic must crash (or not) in the HANDLER under test, not here
@@ -676,7 +677,11 @@ func execVest(x *Exec, toks []string) string {
 		return out
 	case "v.q.locked":
 		a, _ := sdk.AccAddressFromBech32(toks[1])
-		return "ok locked=" + coinsStr(app.BankKeeper.LockedCoins(x.ctx, a))
+		var lk sdk.Coins
+		if res, _ := catch(func() error { lk = app.BankKeeper.LockedCoins(x.ctx, a); return nil }); res != "ok" {
+			return "panic"
+		}
+		return "ok locked=" + coinsStr(lk)
 	case "v.q.spendable":
 		a, _ := sdk.AccAddressFromBech32(toks[1])
 		return "ok spendable=" + coinsStr(app.BankKeeper.SpendableCoins(x.ctx, a))
@@ -731,8 +736,15 @@ func splitMonitored(x *Exec, f *vestFam, op string, o, t addrTok, amt sdk.Coins,
 	var fromAcc *sdkvesting.ContinuousVestingAccount
 	if o.ok {
 		from, _ = sdk.AccAddressFromBech32(o.s)
-		lockedBefore = app.BankKeeper.LockedCoins(x.ctx, from)
-		spendBefore = app.BankKeeper.SpendableCoins(x.ctx, from)
+		// an account whose schedule makes the bank's own locked-coins computation panic (D37) must not stop
+		// the monitor: the message is still delivered, and its panic is what gets reported
+		if res, _ := catch(func() error {
+			lockedBefore = app.BankKeeper.LockedCoins(x.ctx, from)
+			spendBefore = app.BankKeeper.SpendableCoins(x.ctx, from)
+			return nil
+		}); res != "ok" {
+			return vestDeliver(x, f, op, vb, h)
+		}
 		if v, ok := app.AccountKeeper.GetAccount(x.ctx, from).(*sdkvesting.ContinuousVestingAccount); ok {
 			c := *v
 			fromAcc = &c
